@@ -211,8 +211,12 @@ def main(argv: list[str]) -> int:
                 json.dump({"property": prop, "violations": [
                     {"clause": v.clause, "key": v.key, "detail": v.detail} for v, _ in unknown[:200]]},
                     fp, indent=1, default=str)
-            for v, _ in unknown[:10]:
-                log(f"  violation: {v.describe()}  {json.dumps(v.detail, default=str)[:300]}")
+            groups = {}
+            for v, _ in unknown:
+                g = json.dumps(v.key, sort_keys=True)
+                groups.setdefault(g, []).append(v)
+            for g, vs in sorted(groups.items(), key=lambda kv: -len(kv[1]))[:25]:
+                log(f"  {len(vs):6d} x {g}  e.g. {json.dumps(vs[0].detail, default=str)[:260]}")
             print(f"VIOLATION property={prop} replay={rp}")
             return 1
         print(f"OK property={prop} tier={tier} states={ctx.states} evaluations={ctx.evaluations} "
